@@ -736,6 +736,7 @@ Fairness ==
 NextLive == /\ NextAtomic
             /\ (last'.e = "idleshutdown" => (~Wanted \/ ib[last'.w] = "drain"))
             /\ (last'.e = "probetimeout" => last'.w \in broken)
+            /\ (last'.e = "setib" => last'.s # "hold")      \* an instance the operator holds is never shut down, by design
 LiveSpec == Init /\ [][NextLive]_vars /\ Fairness
 
 Final(c) == api[c].state \in {"Complete", "Cancelled"}
@@ -798,6 +799,7 @@ BRestart == Bud(1, 1, 0, 0, 0, 0)
 BSmall   == Bud(1, 1, 1, 0, 0, 0)
 BFaults  == Bud(1, 1, 1, 1, 1, 1)
 BLive2   == Bud(1, 1, 0, 1, 0, 0)
+BLive3   == Bud(0, 1, 0, 1, 0, 1)      \* two faults on one instance: operator drain / hold, then the VM goes deaf or reports broken
 
 ------------------------------------------------------------------------------
 (* Scenario emission: the sequence of steps of a behaviour *)
